@@ -238,6 +238,9 @@ func c01nSeparateServer(c *core.Ctx) {
 		ctx, cancel := context.WithTimeout(context.Background(), 120*time.Second)
 		defer cancel()
 		cmd := exec.CommandContext(ctx, dcat, "--plain", "--cfg", cfg, "--servers", addr, "--user", "alice", "--key", keyFile, "--trustAllHosts", "--files", file)
+		if addr == "" {
+			cmd = exec.CommandContext(ctx, dcat, "--plain", "--cfg", cfg, "--files", file) // serverless
+		}
 		cmd.Env = append(os.Environ(), "HOME="+home)
 		cmd.Stdin = nil
 		out, _ := cmd.StdoutPipe()
@@ -339,6 +342,32 @@ func c01nSeparateServer(c *core.Ctx) {
 					ms, mc, len(content), delays[i%len(delays)], len(got), status, len(want), i, got[i:end]), c01nCase{Desc: fmt.Sprintf("separate server process ms=%d mc=%d len=%d", ms, mc, len(content)), M: ms})
 			}
 		}
+		// readable regular files whose size as reported by stat(2) is NOT the number of bytes a read delivers: the
+		// kernel's pseudo files report size 0 (network and FUSE file systems behave alike)
+		// (in the pair whose client-side limit is large: serverless, a line split at the client's own limit comes with a
+		// WARN line of the local logger, which is a diagnostic the default log level asks for, not content)
+		if mc == 1024*1024 {
+			for _, name := range []string{"/proc/version", "/proc/sys/kernel/ostype", "/proc/sys/kernel/osrelease", "/proc/filesystems"} {
+				fi, err := os.Stat(name)
+				content, rerr := os.ReadFile(name)
+				if err != nil || rerr != nil || !fi.Mode().IsRegular() || len(content) == 0 {
+					continue
+				}
+				for _, a := range []string{addr, ""} {
+					lim, how := ms, "through the server process"
+					if a == "" {
+						lim, how = mc, "serverless"
+					}
+					got, status := runBinary(a, name, mc, 0)
+					want := string(c01nSplit(content, lim))
+					c.Count("pseudo-file|" + name + "|" + how)
+					if got != want || status != 0 {
+						c.Violation("pseudo-file-whose-stat-size-is-not-its-length", fmt.Sprintf("real dcat binary, %s: dcat --plain %s (a readable regular file of %d bytes that stat(2) reports as %d bytes long) printed %q (status %d), want %q", how, name, len(content), fi.Size(), got, status, want),
+							c01nCase{Desc: "pseudo file " + name + " " + how, M: lim})
+					}
+				}
+			}
+		}
 		stop()
 	}
 }
@@ -349,7 +378,7 @@ func init() {
 		ReportAs: "C01",
 		Level:    "exploration",
 		Rule: "PART 2 (native, real SSH): file contents = all sequences of <=3 (quick) / <=4 (thorough) tokens over 12 byte tokens, files with two lines longer than the 32 KiB transport buffer, a gzip file; each is served by a real in-process dtail server and fetched by " +
-			"the real dcat client code over x/crypto/ssh on loopback (plain mode); oracle as in part 1; plus the REAL dcat binary of the tree (dcat --plain --cfg ... --servers ... --files ...) against the server in a PROCESS OF ITS OWN whose MaxLineLength differs from the client's configuration file (4 pairs), lines around both limits and around the client's limit + 4096, and a 4 MB file whose output nobody reads for the first 4.5 s (a session longer than the client's 3 s statistics interval)",
+			"the real dcat client code over x/crypto/ssh on loopback (plain mode); oracle as in part 1; plus the REAL dcat binary of the tree (dcat --plain --cfg ... --servers ... --files ...) against the server in a PROCESS OF ITS OWN whose MaxLineLength differs from the client's configuration file (4 pairs), lines around both limits and around the client's limit + 4096, a 4 MB file whose output nobody reads for the first 4.5 s (a session longer than the client's 3 s statistics interval), and four kernel pseudo files (readable regular files whose stat size, 0, is not their length) through the server and serverless",
 		Assumptions: []string{"part 2 runs free (one schedule per input); it binds the serverless results of part 1 to the SSH wiring (server.go, serverconnection.go)"},
 		Serial:      true,
 		QuickBudget: 150 * time.Second,
